@@ -157,7 +157,7 @@ def rule_b(ctx):
                 ok, detail = False, 'on timeout the liveness flag is not cleared or the application is not told'
         elif cleared or told:
             ok, detail = False, 'the timeout callback runs although the silence does not exceed the maximum lifetime'
-    if n_timeout == 0:
+    if n_timeout == 0 and ok:
         ok, detail = False, 'no path reports a timeout'
     rep.add('C15.b', 'RSocketClient._keepalive_timeout_task / strict comparison with the maximum lifetime', tmo, ok,
             detail or 'sleeps the maximum lifetime, reports a timeout exactly when now - last > maximum lifetime')
